@@ -16,7 +16,7 @@ def request (j : Json) : Json :=
       s!"request exceeded its deadline: {(jarr detail "timeouts").toList.map asStr}"
     else ""
   Json.mkObj [("model", Json.mkObj [("panic", false), ("timeout", false)]), ("spec_ok", !bad),
-    ("in_domain", true), ("known", Json.arr #[]), ("why", why), ("nontrivial", jnat j "len" > 0)]
+    ("in_domain", true), ("known", Json.arr #[]), ("why", why), ("nontrivial", decide (jnat j "len" > 0))]
 
 def handle (op : String) (j : Json) : Option Json :=
   match op with
